@@ -20,7 +20,7 @@ impl Prop for C13 {
         "C13"
     }
     fn rule(&self) -> &'static str {
-        "values from a value generator (ints, floats, strings, arrays of every representation, records, tuples, variants, user lists, closures, partial applications, lazies, shared substructure, cycles through closures) x transfer routes (host: RootedValue::re_root, passing a value of thread A as an argument to a function of thread B, module global read from another thread; gluon: channel child->parent and parent->child->parent, a captured value in a spawned action, `<-` into the parent's reference from a child, forcing the parent's lazy from a child) x thread pairs over the tree root / child / grandchild / sibling / unrelated VM x random orders of {collect A, collect B, collect root, drop the source value, drop thread A}; oracles: the canonical graph shape (first-visit numbering, back references) of the received value equals the shape of the original and stays equal after every event; the heap-ownership walk (verif_check_heaps) over the whole thread tree finds no dangling edge and no edge into a heap that is neither the holder's own nor one of its ancestors; ASan phase for use-after-free; non-trivial = the value contains at least one heap object and the route crosses heaps that may not share; distinct = (value, route, pair, order)"
+        "values from a value generator (ints, floats, strings, arrays of every representation, records, tuples, variants, user lists, closures, partial applications, lazies, shared substructure, cycles through closures) x transfer routes (host: RootedValue::re_root, passing a value of thread A as an argument to a function of thread B, module global read from another thread; gluon: channel child->parent and parent->child->parent, a captured value in a spawned action, `<-` into the parent's reference from a child, forcing the parent's lazy from a child) x thread pairs over the tree root / child / grandchild / sibling / cousin (child of the sibling) / unrelated VM, half of the values partly owned by the sender's parent x random orders of {collect A, collect B, collect root, drop the source value, drop thread A}; oracles: the canonical graph shape (first-visit numbering, back references) of the received value equals the shape of the original and stays equal after every event; the heap-ownership walk (verif_check_heaps) over the whole thread tree finds no dangling edge and no edge into a heap that is neither the holder's own nor one of its ancestors; ASan phase for use-after-free; non-trivial = the value contains at least one heap object and the route crosses heaps that may not share; distinct = (value, route, pair, order)"
     }
     fn phases(&self, tier: Tier) -> Vec<Phase> {
         let mut v = vec![
@@ -150,7 +150,7 @@ fn paren(s: String) -> String {
     }
 }
 
-const THREADS: &[&str] = &["root", "child", "grandchild", "sibling", "unrelated"];
+const THREADS: &[&str] = &["root", "child", "grandchild", "sibling", "cousin", "unrelated"];
 const HOST_ROUTES: &[&str] = &["re_root", "call-identity", "call-capture", "global"];
 const GLUON_ROUTES: &[&str] = &["channel-up", "channel-roundtrip", "spawn-capture", "ref-store", "lazy-force"];
 const EVENTS: &[&str] = &["collect-a", "collect-b", "collect-root", "drop-source", "drop-thread-a", "collect-b"];
@@ -160,6 +160,8 @@ struct Tree {
     child: Option<RootedThread>,
     grandchild: Option<RootedThread>,
     sibling: Option<RootedThread>,
+    /// child of `sibling`: a cousin of `grandchild`
+    cousin: Option<RootedThread>,
     unrelated: RootedThread,
 }
 
@@ -169,8 +171,9 @@ impl Tree {
         let child = root.new_thread().expect("new_thread");
         let grandchild = child.new_thread().expect("new_thread");
         let sibling = root.new_thread().expect("new_thread");
+        let cousin = sibling.new_thread().expect("new_thread");
         let unrelated = vm_with(Settings::PLAIN);
-        Tree { root, child: Some(child), grandchild: Some(grandchild), sibling: Some(sibling), unrelated }
+        Tree { root, child: Some(child), grandchild: Some(grandchild), sibling: Some(sibling), cousin: Some(cousin), unrelated }
     }
     fn get(&self, name: &str) -> Option<RootedThread> {
         match name {
@@ -178,6 +181,7 @@ impl Tree {
             "child" => self.child.clone(),
             "grandchild" => self.grandchild.clone(),
             "sibling" => self.sibling.clone(),
+            "cousin" => self.cousin.clone(),
             "unrelated" => Some(self.unrelated.clone()),
             _ => None,
         }
@@ -191,7 +195,11 @@ impl Tree {
                 self.child = None;
             }
             "grandchild" => self.grandchild = None,
-            "sibling" => self.sibling = None,
+            "cousin" => self.cousin = None,
+            "sibling" => {
+                self.cousin = None;
+                self.sibling = None;
+            }
             _ => {}
         }
     }
@@ -286,12 +294,12 @@ impl Worker for W {
             let a = *rng.pick(THREADS);
             let mut b = *rng.pick(THREADS);
             if a == b {
-                b = THREADS[(THREADS.iter().position(|x| *x == a).unwrap() + 1 + rng.below(4)) % 5];
+                b = THREADS[(THREADS.iter().position(|x| *x == a).unwrap() + 1 + rng.below(5)) % 6];
             }
             let mut events: Vec<&str> = EVENTS.to_vec();
             rng.shuffle(&mut events);
             events.truncate(2 + rng.below(5));
-            Some(json!({"value": val, "route": route, "a": a, "b": b, "events": events, "feats": feats, "key": {"route": route}}))
+            Some(json!({"value": val, "route": route, "a": a, "b": b, "events": events, "feats": feats, "mixed_ancestry": rng.chance(1, 2), "key": {"route": route}}))
         }
     }
 
@@ -313,10 +321,38 @@ impl Worker for W {
         if route == "global" && (a == "unrelated" || b == "unrelated") {
             return CaseResult::skip("global route within one VM only");
         }
-        // ---- original on A
-        let original = match eval_on(&ta, "c13_value", &src) {
-            Ok(v) => v,
-            Err(e) => return CaseResult::inconclusive(hash, format!("value program rejected: {}", e)),
+        // ---- original on A; half of the time part of it is owned by A's parent: the inner value
+        // is built on the parent and handed down (a descendant may point into an ancestor's heap)
+        let parent_name = match a {
+            "child" | "sibling" => Some("root"),
+            "grandchild" => Some("child"),
+            "cousin" => Some("sibling"),
+            _ => None,
+        };
+        let mixed = case["mixed_ancestry"] == true && parent_name.is_some() && route != "global";
+        let original = if mixed {
+            let tp = tree.get(parent_name.unwrap()).unwrap();
+            let inner = match eval_on(&tp, "c13_inner", &src) {
+                Ok(v) => v,
+                Err(e) => return CaseResult::inconclusive(hash, format!("value program rejected: {}", e)),
+            };
+            let wrap = match ta.run_expr::<Opaque>("c13_wrap_down", "\\x -> { inner = x, fresh = [7, 8], again = x }") {
+                Ok((f, _)) => f,
+                Err(e) => return CaseResult::inconclusive(hash, format!("wrapper rejected: {}", e)),
+            };
+            let mut func: gluon::vm::api::Function<RootedThread, fn(Opaque) -> Opaque> = gluon::vm::api::Getable::from_value(&ta, wrap.get_variant());
+            match func.call(OpaqueValue::from_value(inner)) {
+                Ok(v) => {
+                    res.stat("values_with_parts_owned_by_the_parent", 1);
+                    v.into_inner()
+                }
+                Err(e) => return CaseResult::inconclusive(hash, format!("handing the inner value down failed: {}", e)),
+            }
+        } else {
+            match eval_on(&ta, "c13_value", &src) {
+                Ok(v) => v,
+                Err(e) => return CaseResult::inconclusive(hash, format!("value program rejected: {}", e)),
+            }
         };
         let expect = shape_of(&original);
         let has_heap_object = expect.contains('=');
@@ -421,7 +457,7 @@ impl Worker for W {
                 }
                 "drop-thread-a" => {
                     // only when A is not B's ancestor (B must stay alive) and not a root
-                    let ancestor = matches!((a, b), ("child", "grandchild") | ("root", _));
+                    let ancestor = matches!((a, b), ("child", "grandchild") | ("sibling", "cousin") | ("root", _));
                     if !ancestor && a != "root" && a != "unrelated" {
                         original = None;
                         ta = None;
